@@ -4,7 +4,7 @@
    the theorems cover every point at which rendering can fail and every chunking. *)
 From Coq Require Import String.
 From Verif Require Import Bytes Textproto SendErr RefServer SmtpSend SmtpSendGen.
-From VerifProofs Require SmtpSendRenderProofs.
+From VerifProofs Require SmtpSendRenderProofs SmtpSendProgramsProofs.
 From VerifProofs Require Import TextprotoProofs SmtpSendProofs SmtpSendGenProofs SmtpSendCorollaries SmtpSendRefuted.
 
 Theorem C03_source_expect_codes : gen_expects = std_expects.
@@ -112,6 +112,25 @@ Theorem C03_failing_producer_never_committed : forall wms date msgid rb (F : fix
           ms (o_results o).
 Proof. exact SmtpSendRenderProofs.failing_producer_never_committed. Qed.
 Print Assumptions C03_failing_producer_never_committed.
+
+(* Concurrent Send calls on one dialled Client.  Client.Send holds sendMutex across SendWithSMTPClient (T1 below,
+   from the lock program the locks engine extracts; mutual exclusion itself is C13_shared_conn_exclusive), so two
+   racing Send calls are their sequential composition in either order, and then the commit log still consists of
+   complete messages only.  The harness program "conc" starts the second Send from inside the first one's DATA. *)
+Theorem C03_source_send_holds_send_mutex :
+  forallb (call_under_lock false false) VerifGen.Gen.send_paths = true /\ VerifGen.Gen.send_paths <> [].
+Proof. exact gen_send_holds_send_mutex. Qed.
+Print Assumptions C03_source_send_holds_send_mutex.
+
+Theorem C03_serialised_sends : forall (F : fixes), dialogue_repaired F ->
+  forall cfg render caps caps_tls script ms1 ms2,
+  let o := run_serialised std_expects F cfg caps caps_tls script ms1 ms2 render in
+  all_legal (p_world o) = true /\ all_attributed (p_world o) = true /\
+  w_commits (p_world o) = batch_commits render ms1 (p_results1 o) ++ batch_commits render ms2 (p_results2 o) /\
+  (if attempted (p_ret1 o) then Forall2 (msg_post render) ms1 (p_results1 o) else p_results1 o = untouched ms1) /\
+  (if attempted (p_ret2 o) then Forall2 (msg_post render) ms2 (p_results2 o) else p_results2 o = untouched ms2).
+Proof. exact SmtpSendProgramsProofs.run_serialised_spec. Qed.
+Print Assumptions C03_serialised_sends.
 
 (* the original code commits a fragment and tells nobody: witness, replayed on the real code in corpus/C03.txt *)
 Theorem C03_partial_commit_before_fix_refuted :
